@@ -91,7 +91,8 @@ type Req struct {
 	// Request.Host carries the authority of URL (the target URI is still URL).
 	DialVia string `json:"dial_via,omitempty"`
 	// OpaqueForm: the http.Request spells its target in URL.Opaque: 1 = the path
-	// ("/p%2Fq"), 2 = "//authority/path" (the target URI is still URL).
+	// ("/p%2Fq"), 2 = "//authority/path", 3 = "scheme://authority/path" (the target URI is
+	// still URL).
 	OpaqueForm int `json:"opaque_form,omitempty"`
 	// BodyLen > 0: the request carries a body of that many bytes (known length).
 	BodyLen int `json:"body_len,omitempty"`
@@ -138,6 +139,14 @@ type Body struct {
 	Class  string `json:"class,omitempty"` // "" (filler 'x') | rand | crlf | nul | httpish | meta
 	Seed   uint64 `json:"seed,omitempty"`
 	FailAt int    `json:"fail_at,omitempty"` // >0: the reader fails (sticky) after FailAt-1 bytes; 0 = never
+	// StallAt > 0: after StallAt-1 bytes the reader blocks - like the body of a real
+	// http.Transport response whose peer stops sending - until the request's context ends
+	// (it then returns the context's error) or the body is closed.
+	StallAt int `json:"stall_at,omitempty"`
+	// ShortBy > 0: the body yields that many bytes fewer than its declared Content-Length and
+	// then a clean EOF (an upstream RoundTripper that builds or rewrites responses can do that;
+	// http.Transport would report io.ErrUnexpectedEOF).
+	ShortBy int `json:"short_by,omitempty"`
 	// CloseErr: the body delivers all its bytes and a clean EOF, but its Close reports an error.
 	CloseErr bool `json:"close_err,omitempty"`
 }
